@@ -152,9 +152,32 @@ CHECKS = {
 PENDING = {f'C{n:02d}': 'check not built yet in this round (see DESIGN.md section 9 for the build order)' for n in range(1, 21)}
 
 
+# what the seventh round of seeded changes added to the generators and oracles (appended to the level text)
+ROUND7 = {
+    'C01': 'Listeners that act from inside a notification (unsubscribe themselves, subscribe another listener, close, kill / pause / play, raise asyncio.CancelledError from the notification about the end, checkpoint the process while its terminal state cannot be serialised); a terminal state a listener saw must be the state the process keeps.',
+    'C02': 'Listeners that unsubscribe / subscribe from inside notifications; outputs emitted from the hooks around the end of the last step (on_finish, on_finished, on_exit_running, on_exiting).',
+    'C03': 'A listener failing in a notification about the end first takes itself off the process.',
+    'C05': 'Kill requests withdrawn at once (event killw) before pause / play; a listener that answers the played notification with a new pause (status restored by the second play); paused-after-play also for plays issued by listeners, hooks and steps.',
+    'C06': 'Pause / play requested by listeners and lifecycle hooks around the wake-up; kill / pause requests that a hook or listener drops at once; a woken process must not report paused after a play without a new pause request.',
+    'C07': 'Every other point is saved again as a dereferenced bundle; a process parked with Wait(msg, data) without continuation.',
+    'C09': 'Chains on a loop of their own (the default loop of the thread is another one that never runs, construction outside any running loop) that wait for children launched from steps: nothing may be scheduled on the default loop; base-class state maps are built before any subclass is used.',
+    'C10': 'The same own-loop configuration with children launched by the step or constructed beforehand outside any running loop.',
+    'C11': 'Namespaces declared with a nested name through PortNamespace.create_port_namespace with options (implicit default parents), all 32 namespace shapes.',
+    'C12': 'Output namespaces declared with a nested name through create_port_namespace with options.',
+    'C14': 'Falsy pids (0 and the empty string) with the clause that a process keeps the pid it was given; store directories that do not exist yet (one and three missing levels).',
+    'C15': 'Arguments given positionally in their documented order; namespace given as the empty string; a source port re-filed under another key.',
+    'C17': 'Continue tasks sent through RemoteProcessThreadController / RemoteProcessController; execute_process for a class that only the given registry loader can name; pid 0.',
+    'C18': 'Requests made from the hooks of another request being carried out (on_paused / on_pausing answering a deferred pause with kill or play); process classes that compare by value or are falsy.',
+    'C19': 'Loading for another loop than the one that is current and running: every restored future must live on the loop named in the load context.',
+    'C20': 'Broadcast subscribers behind kiwipy.BroadcastFilter through convert_to_comm (subject and sender filters, positional and keyword delivery); the reply of Process.broadcast_receive to play / pause / kill intents.',
+}
+
+
 def main():
     checks = []
     for pid, (level, technique, text, note, ref) in sorted(CHECKS.items()):
+        if pid in ROUND7:
+            text = text.rstrip() + ' Added after round 7 of the seeded changes: ' + ROUND7[pid]
         checks.append(
             {
                 'property_id': pid,
